@@ -2,7 +2,9 @@
 # apply a seeded patch to /repo, run a check, undo. usage: try_seed.sh <seed-id> [<prop>] [tier]
 s=$1; p=${2:-${s%%_*}}; t=${3:-quick}
 cd /verif
+EVBAK=$(mktemp -d /tmp/evbak.XXXX); cp -r evidence/. $EVBAK/    # evidence of the clean tree is put back afterwards
 git -C /repo apply /verif/seeded/$s/patch.diff || exit 9
 ./check $p --tier $t > /tmp/try_$s.log 2>&1; e=$?
 git -C /repo checkout -- .
 echo "$s on $p: exit=$e  $(grep -c '^VIOLATION' /tmp/try_$s.log) violation lines; first: $(grep -m1 -A1 '^VIOLATION' /tmp/try_$s.log | tail -1 | cut -c1-200)"
+cp -r $EVBAK/. evidence/; rm -rf $EVBAK
